@@ -114,6 +114,19 @@ pub fn user_writer_eid(n: u8, with_key: bool) -> EntityId {
   )
 }
 
+/// Entity ids as a real peer numbers them: keys count up from 000000 (RustDDS itself does
+/// this), so the first ones lie below ENTITYID_PARTICIPANT (000001|c1) in GUID order.
+pub fn peer_eid(n: u8, is_reader: bool) -> EntityId {
+  EntityId::new(
+    [0, 0, n],
+    if is_reader {
+      EntityKind::READER_WITH_KEY_USER_DEFINED
+    } else {
+      EntityKind::WRITER_WITH_KEY_USER_DEFINED
+    },
+  )
+}
+
 pub fn eid_bytes(e: EntityId) -> [u8; 4] {
   [
     e.entity_key[0],
